@@ -9,6 +9,7 @@ import (
 	"strings"
 	"testing"
 
+	"google.golang.org/protobuf/compiler/protogen"
 	"google.golang.org/protobuf/proto"
 	"google.golang.org/protobuf/types/descriptorpb"
 	"google.golang.org/protobuf/zverif/gencode"
@@ -35,7 +36,7 @@ func (c clash) String() string {
 	if c.Type != "" {
 		where += " " + c.Type
 	}
-	return fmt.Sprintf("[%s] %s: %s %s declared twice (%s and %s)", c.Level, where, c.Name, "", c.A, c.B)
+	return fmt.Sprintf("[%s] %s: %s declared twice (%s and %s)", c.Level, where, c.Name, c.A, c.B)
 }
 
 type member struct{ kind, name string }
@@ -630,35 +631,146 @@ func TestNameSets(t *testing.T) {
 }
 
 // ---------------------------------------------------------------------------------------------
-// random adversarial schema sets (whole files, every construct): only scopes that belong to one
-// message are examined here (member sets); package-level naming across declarations is C41's build.
+// random adversarial schema sets (whole files, every construct: groups, maps, proto3 optional,
+// extensions, nested declarations): the member sets of every message struct and builder are
+// examined; package-level naming across declarations (Foo_Bar vs Foo.Bar ...) is left to C41's build.
 
 type schemaCase struct {
 	Raw   [][]byte `json:"raw"`
 	Level string   `json:"level"`
 }
 
+type schemaResult struct {
+	messages, clashes, excluded, pkgIgnored int
+}
+
 func checkSchemaNames(c schemaCase) error {
+	_, err := runSchemaNames(c, true)
+	return err
+}
+
+func runSchemaNames(c schemaCase, exclude bool) (schemaResult, error) {
+	var res schemaResult
 	files, err := schema.Unmarshal(c.Raw)
 	if err != nil {
-		return fmt.Errorf("harness: %v", err)
+		return res, fmt.Errorf("harness: %v", err)
 	}
 	gencode.AssignGoPackages(files, "example.com/gen", true)
 	req, err := gencode.Request(files, nil, "default_api_level="+c.Level)
 	if err != nil {
-		return fmt.Errorf("harness: %v", err)
+		return res, fmt.Errorf("harness: %v", err)
 	}
 	resp, err := gencode.Generate(req)
 	if err != nil {
-		return fmt.Errorf("protogen.Options.New fails on a valid schema set: %v", err)
+		return res, fmt.Errorf("protogen.Options.New fails on a valid schema set: %v", err)
 	}
 	if resp.Error != nil {
-		return fmt.Errorf("generator reports an error for a valid schema set: %.600s", resp.GetError())
+		return res, fmt.Errorf("generator reports an error for a valid schema set: %.600s", resp.GetError())
 	}
-	for _, f := range resp.GetFile() {
-		if _, err := parser.ParseFile(token.NewFileSet(), f.GetName(), f.GetContent(), parser.SkipObjectResolution); err != nil {
-			return fmt.Errorf("generated file %s does not parse: %v", f.GetName(), err)
+	// the model: names protogen assigned, read at the hybrid level (makes the method infix observable)
+	reqH, _ := gencode.Request(files, nil, "default_api_level=API_HYBRID")
+	genH, err := gencode.Plugin(reqH)
+	if err != nil {
+		return res, fmt.Errorf("harness: %v", err)
+	}
+	models := map[string]map[string]*model{} // Go import path -> Go type name -> model
+	var walk func(pkg string, ms []*protogen.Message)
+	walk = func(pkg string, ms []*protogen.Message) {
+		for _, m := range ms {
+			if m.Desc.IsMapEntry() {
+				continue
+			}
+			if models[pkg] == nil {
+				models[pkg] = map[string]*model{}
+			}
+			models[pkg][m.GoIdent.GoName] = modelOfMessage(m)
+			res.messages++
+			walk(pkg, m.Messages)
 		}
 	}
-	return nil
+	for _, f := range genH.Files {
+		if f.Generate {
+			walk(string(f.GoImportPath), f.Messages)
+		}
+	}
+	for _, f := range resp.GetFile() {
+		name := f.GetName()
+		pkg := name
+		if i := strings.LastIndex(name, "/"); i >= 0 {
+			pkg = name[:i]
+		}
+		cl, err := clashesOf(fileLevel(name, c.Level), f.GetContent())
+		if err != nil {
+			return res, fmt.Errorf("generated file %s does not parse: %v", name, err)
+		}
+		for _, k := range cl {
+			res.clashes++
+			if k.Scope == "package" {
+				res.pkgIgnored++
+				continue
+			}
+			if k.Scope != "message" && k.Scope != "builder" {
+				continue // wrapper / interface members follow from a package-level type clash
+			}
+			m := models[pkg][strings.TrimSuffix(k.Type, "_builder")]
+			if m == nil {
+				return res, fmt.Errorf("generated code does not compile: %v in %s (no message of that Go name in the model)", k, name)
+			}
+			if id := m.attribute(k); id != "" && (!exclude || pbt.ExcludeKnown(id)) {
+				res.excluded++
+				continue
+			}
+			return res, fmt.Errorf("generated code does not compile: %v in %s", k, name)
+		}
+	}
+	return res, nil
+}
+
+func TestSchemaSets(t *testing.T) {
+	pbt.Run(t, pbt.Prop[schemaCase]{
+		Name: "schema-sets",
+		Rule: "random schema sets from harness/schema with Opts.AdversarialNames (1-3 files; every construct: groups, maps, proto3 optional, required, extensions, nested declarations, services), each file its own Go package, generated at one of the three API levels: generator succeeds, every file parses, and no identifier is declared twice among the fields + methods of any message struct or builder struct (package-level clashes between different declarations are not judged here). non-trivial = some message has >= 2 fields/oneofs",
+		Draw: func(t *rapid.T) schemaCase {
+			files := schema.Draw(t, schema.Opts{AdversarialNames: true, MaxFiles: 2, Lazy: true})
+			return schemaCase{Raw: schema.Marshal(files), Level: rapid.SampledFrom(gencode.APILevels).Draw(t, "level")}
+		},
+		Check: checkSchemaNames,
+		NonTrivial: func(c schemaCase) bool {
+			files, err := schema.Unmarshal(c.Raw)
+			if err != nil {
+				return false
+			}
+			var big func(ms []*descriptorpb.DescriptorProto) bool
+			big = func(ms []*descriptorpb.DescriptorProto) bool {
+				for _, m := range ms {
+					if len(m.GetField())+len(m.GetOneofDecl()) >= 2 || big(m.GetNestedType()) {
+						return true
+					}
+				}
+				return false
+			}
+			for _, f := range files {
+				if big(f.GetMessageType()) {
+					return true
+				}
+			}
+			return false
+		},
+		Classes: func(c schemaCase) []string {
+			cl := []string{"level:" + levelName(c.Level)}
+			if r, err := runSchemaNames(c, false); err == nil {
+				if r.excluded > 0 {
+					cl = append(cl, "has-known-clash")
+				}
+				if r.pkgIgnored > 0 {
+					cl = append(cl, "has-package-level-clash(not judged)")
+				}
+				if r.clashes == 0 {
+					cl = append(cl, "clash-free")
+				}
+			}
+			return cl
+		},
+		Quick: 600, Thorough: 4000,
+	})
 }
